@@ -162,7 +162,7 @@ def child(args):
         json.dump(payload, open(ipath, "w"))
     env = dict(os.environ, PYTHONPATH=os.path.join(common.REPO, "packages", "python") + os.pathsep + common.VERIF, PYTHONHASHSEED="0")
     p = subprocess.run([common.PY, "-m", "harness.c19_child", mode, ipath if mode not in ("stress", "shared") else str(payload), bpath],
-                       cwd=common.VERIF, env=env, stdout=subprocess.PIPE, stderr=subprocess.PIPE, timeout=300)
+                       cwd=common.VERIF, env=env, stdout=subprocess.PIPE, stderr=subprocess.PIPE, timeout=900)
     if p.returncode != 0:
         raise common.MachineryError("c19 child failed (%s %d):\n%s" % (mode, idx, p.stderr.decode()[-1500:]))
     out = json.loads(p.stdout.decode().strip().splitlines()[-1])
